@@ -17,11 +17,11 @@ func init() {
 				c.Cfg.Consumers = append(c.Cfg.Consumers, rapid.IntRange(1, 3).Draw(t, "consconc"))
 			}
 			c.Cfg.AsyncNotify = rapid.Bool().Draw(t, "async")
-			// the adapter may come back empty-handed once in a while (a lost race on the shared store, a
-			// transient error): announced items must still be picked up without further prompting
+			// the adapter may come back empty-handed or refuse an acknowledgement once in a while (a lost race
+			// on the shared store, a transient error): announced items must still be picked up without prompting
 			if rapid.IntRange(0, 2).Draw(t, "withdeqfaults") == 0 {
 				for i := 0; i < rapid.IntRange(1, 2).Draw(t, "ndeqfaults"); i++ {
-					c.Faults = append(c.Faults, Fault{Method: "Dequeue", K: rapid.IntRange(1, 5).Draw(t, "deqfk")})
+					c.Faults = append(c.Faults, Fault{Method: pick(t, "fmethod", []string{"Dequeue", "Dequeue", "Acknowledge"}), K: rapid.IntRange(1, 5).Draw(t, "deqfk")})
 				}
 			}
 			np := rapid.IntRange(0, 3).Draw(t, "npre")
